@@ -1,5 +1,6 @@
 import TexcraftModel.Util.Proto
 import TexcraftModel.Model.C02
+import TexcraftModel.Model.C02Stream
 
 /-! Driver for C02 (macro parameters). Tokens are words: `{` `}` `_` (space) `#`, `\c`
 (control sequence named by the one character `c`), any other single character = that
@@ -15,6 +16,10 @@ character token. Section markers are the upper-case words `P D H N B I O`.
   only the non-brace tokens are observable (`project`); `X` = "there is no group to end".
 
 Every `ok <tokens>` outcome is followed by a field with its `project`ion.
+
+* `st <sections as s> I <p0> F <p1> F <p2>` — as `s`, but the call is run on the stream model
+  (`callS`, `Model/C02Stream.lean`): `p0` is what is left of the current source's lexer, `p1`
+  the pending tokens of the enclosing source, `p2` its lexer; the reply has the same fields.
 
 Outcomes print as `ok <tokens>`, `err <name>`, `panic`; the spec as `some <tokens>` / `none`. -/
 open C02 Proto
@@ -157,6 +162,33 @@ def runModel (defToks inp : List Tok) : String :=
   | .err e => s!"err {errName e} | - | - | - | -"
   | .panic => "panic | - | - | - | -"
 
+/-- Split a word list at every `F`. -/
+def splitF : List String → List (List String)
+  | [] => [[]]
+  | w :: ws =>
+    match splitF ws with
+    | [] => [[]]
+    | p :: ps => if w = "F" then [] :: p :: ps else (w :: p) :: ps
+
+/-- As `runModel`, but the call runs on the *stream* model (`Model/C02Stream.lean`): the
+definition and the call end the current source (`p0` = what is left of its lexer), the
+enclosing source has the pending tokens `p1` and `p2` in its lexer; the result is read back
+with `readAll`. -/
+def runModelS (defToks p0 p1 p2 : List Tok) : String :=
+  let inp := p0 ++ p1 ++ p2
+  let st : Stream := ⟨⟨[], p0⟩, [⟨p1.reverse, p2⟩]⟩
+  let showS (r : Res Stream) : String :=
+    match r with
+    | .ok st' => showResP (.ok (readAll (st'.flat.length + 1) st'))
+    | .err e => showResP (.err e)
+    | .panic => showResP .panic
+  match defParse (defToks ++ nameTok :: inp) with
+  | .ok (m, rest) =>
+    if rest = nameTok :: inp then s!"ok | {showS (callS m st)} | {showS (callOldS m st)}"
+    else "overrun | - | - | - | -"
+  | .err e => s!"err {errName e} | - | - | - | -"
+  | .panic => "panic | - | - | - | -"
+
 def handle (line : String) : String :=
   match words line with
   | "s" :: ws =>
@@ -165,6 +197,21 @@ def handle (line : String) : String :=
       let d := renderDef s
       let sp := specExpand s inp
       s!"{showToks d} | {runModel d inp} | {showOpt sp} | {match sp with | some l => showProj l | none => "-"}"
+    | _ => "bad-request"
+  | "st" :: ws =>
+    -- `st <sections as s> I <p0> F <p1> F <p2>`: the call on the stream model
+    let before := ws.takeWhile (· ≠ "I")
+    match ws.dropWhile (· ≠ "I") with
+    | "I" :: inpWs =>
+      match splitF inpWs with
+      | [w0, w1, w2] =>
+        match w0.mapM tokOfWord, w1.mapM tokOfWord, w2.mapM tokOfWord, parseSpecReq (before ++ "I" :: (w0 ++ w1 ++ w2)) with
+        | some p0, some p1, some p2, some ⟨s, inp, none⟩ =>
+          let d := renderDef s
+          let sp := specExpand s inp
+          s!"{showToks d} | {runModelS d p0 p1 p2} | {showOpt sp} | {match sp with | some l => showProj l | none => "-"}"
+        | _, _, _, _ => "bad-request"
+      | _ => "bad-request"
     | _ => "bad-request"
   | "r" :: ws =>
     let (d, ws) := takeSection ws
